@@ -23,4 +23,4 @@ def run(rep):
     br.rule_tags_ast(rep, "C03.tags")
     mr.rule_text_extraction(rep, "C03.text")
     mr.rule_docstring_fsm(rep, "C03.verbatim")
-    mr.rule_reset(rep, "C03.reset")
+    mr.rule_reset(rep, "C03.reset", classes=(mr.MQ, "gherkin.ast_builder.AstBuilder"))
